@@ -257,7 +257,11 @@ func (k *Keys) ReadKey() (key rune, isAbort bool) {
 			return key, true
 		}
 
-		key = []rune(string(buf))[0]
+		// Only the first character is the argument: if more
+		// keys were read with it, they are ordinary input.
+		var size int
+		key, size = utf8.DecodeRune(buf)
+		k.buf = append(k.buf, buf[size:]...)
 	}
 
 	// Always mark those keys as matched, so that
